@@ -42,6 +42,7 @@ const P_TRIANGLE_CORNER_VISITED: usize = 13;
 const P_SQUARE_EDGE_CROSSED: usize = 14;
 const P_REORDERED_READS: usize = 15;
 const P_SLOW_TICKS: usize = 16;
+const P_SWEEP_TRACES: usize = 17;
 
 const TWO24: f64 = 16777216.0;
 const ULP1: f64 = 1.1920928955078125e-7;
@@ -251,6 +252,7 @@ impl Engine for LfoEngine {
         "square_edge_crossed",
         "reordered_or_repeated_reads",
         "ticks_with_increment_le_64",
+        "sweep_traces",
     ];
     const NFAULT: usize = 7;
     const COMPONENTS: &'static [(&'static str, &'static str)] = &[
@@ -411,7 +413,11 @@ impl Engine for LfoEngine {
     fn finish(_ex: &mut Exec, _ctx: &mut Ctx) {}
 
     fn run(rng: &mut Rng, prof: &Profile, run: u64, sink: &mut Sink<Self>) {
-        random_run(rng, prof, run, sink);
+        if !prof.chaos && run % 16 == 15 {
+            sweep_run(rng, sink);
+        } else {
+            random_run(rng, prof, run, sink);
+        }
     }
 
     fn cfg_json(c: &Cfg) -> J {
@@ -629,3 +635,40 @@ fn random_run(rng: &mut Rng, prof: &Profile, run: u64, sink: &mut Sink<LfoEngine
     }
     sink.end(t);
 }
+
+/// single-fault sweep: a seeded oscillator with a short cycle; one modulator / sync / reader event injected at
+/// every tick of one and a half cycles
+fn sweep_run(rng: &mut Rng, sink: &mut Sink<LfoEngine>) {
+    let fs = if rng.chance(0.6) { *rng.pick(&FS_SPECIALS) } else { rng.log_uniform(100.0, 192000.0) as f32 };
+    let per = rng.range(8, 48) as f64 + rng.f64();
+    let f0 = (fs as f64 / per) as f32;
+    let f1 = gen_freq(rng, fs, false);
+    let p1 = gen_phase(rng, false);
+    let start = rng.f64() as f32;
+    let len = (per * 1.5) as u32 + 2;
+    for pos in 0..=len {
+        for k in 0..6u32 {
+            let mut t = sink.begin(Cfg { fs });
+            t.ctx.probe(P_SWEEP_TRACES);
+            t.push(Ev::SetFreq(f0.to_bits()));
+            t.push(Ev::SetPhase(start.to_bits()));
+            if pos > 0 {
+                t.push(Ev::Tick(pos));
+            }
+            match k {
+                0 => t.push(Ev::SetFreq(f1.to_bits())),
+                1 => t.push(Ev::Reset),
+                2 => t.push(Ev::SetPhase(p1.to_bits())),
+                3 => t.push(Ev::Read(0o0123_4012 ^ pos)),
+                4 => t.push(Ev::SetFreq(0.0f32.to_bits())),
+                _ => {
+                    t.push(Ev::SetFreq(f1.to_bits()));
+                    t.push(Ev::SetFreq(f0.to_bits()));
+                }
+            }
+            t.push(Ev::Tick(len - pos + 8));
+            sink.end(t);
+        }
+    }
+}
+
